@@ -244,7 +244,10 @@ def gen_cases(tier, rng):
     # ---- frames: every single sort key and key pair of the standard frame
     for n in (0, 1, 3, 5):
         names = ["n", "f", "c", "t"]
-        for by in [[a] for a in names] + [[a, b] for a in names for b in names if a != b] + [["c", "n", "t"]]:
+        stdnames = [c["name"] for c in std_frame(n, 0)]
+        skeys = [k for k in stdnames if k not in names][:1]      # the indexed string column(s) of the standard frame
+        for by in [[a] for a in names] + [[a, b] for a in names for b in names if a != b] + [["c", "n", "t"]] + \
+                [[k] for k in skeys] + [[k, "n"] for k in skeys] + [["c", k] for k in skeys]:
             for ddf in (None, "d1"):
                 cnt += 1
                 cases.append(frame_case(std_frame(n, cnt % 4), [sort_step(by, ddf=ddf, by_str=(len(by) == 1 and cnt % 2 == 0))],
@@ -311,7 +314,8 @@ def rand_step(rng, frames, src, dests_free):
         idt = rng.choice(["int64", "int32", "uint32", "int8"])
         st = idx_step(rand_index(rng, n, neg=(idt != "uint32")), src=src, ddf=ddf, idtype=idt, as_field=rng.random() < 0.2)
     else:
-        by = rng.sample(plain, rng.randrange(1, min(3, len(plain)) + 1))
+        anyk = [c["name"] for c in cols] if rng.random() < 0.35 else plain      # sometimes an indexed string key too
+        by = rng.sample(anyk, rng.randrange(1, min(3, len(anyk)) + 1))
         st = sort_step(by, src=src, ddf=ddf, by_str=(len(by) == 1 and rng.random() < 0.5))
     return st
 
@@ -838,11 +842,13 @@ def oracle_step(frames, st):
         if st["what"] == "sort":
             by = st["by"]
             names = {c["name"]: c for c in cols}
-            if not by or any(b not in names for b in by) or any("data" not in names[b] for b in by):
+            if not by or any(b not in names for b in by):
                 return None
             if len(lens) > 1:
                 return None
-            idx = sort_perm([names[b]["data"] for b in by], n)
+            # an indexed string key orders by code point = by UTF-8 bytes (accepted as a key since fix NC07b)
+            idx = sort_perm([names[b]["data"] if "data" in names[b] else [e.encode("utf-8") for e in entries(names[b])]
+                             for b in by], n)
         else:
             idx = st["idx"]
         if ddf is None and len(lens) > 1:
